@@ -121,9 +121,8 @@ class GotranPythonCodePrinter(PythonCodePrinter):
         return f"({self._print(lhs)} == {self._print(rhs)})"
 
     def _print_sign(self, e):
-        return "(0.0 if ({e} == 0) else {f}(1, {e}))".format(
-            f=self._module_format("numpy.copysign"), e=self._print(e.args[0])
-        )
+        # numpy.sign is elementwise (and jit-traceable): 0 at 0, +-1 otherwise
+        return "{f}({e})".format(f=self._module_format("numpy.sign"), e=self._print(e.args[0]))
 
 
 def get_formatter(format: Format) -> typing.Callable[[str], str]:
